@@ -7,7 +7,7 @@ open FBV FBV.Wire FBV.DrvAD
 def lenOf (h : List Byte) : Nat :=
   match h with
   | [] => 0
-  | x :: _ => x.toNat % 16
+  | x :: _ => if x.toNat < 0x30 then 0 else (x.toNat - 0x30) % 80
 
 def showReqs (l : List (List Byte × List Byte)) : String :=
   if l.isEmpty then "-" else ",".intercalate (l.map fun (h, p) => s!"{hex h}:{hex p}")
